@@ -87,8 +87,8 @@ def run_shard(spec, ctx):
         ctx.sample({'cell': c, 'r': r, 'centre': a5.cell_to_lonlat(c)})
     else:
         for n in range(spec['n']):
-            kind = ('polar', 'frame', 'antimeridian', 'edge', 'seam')[n % 5]
-            p, r = gen.point(rnd, a5, kind)
+            kind = ('polar', 'frame', 'antimeridian', 'edge', 'seam', 'equator')[n % 6]
+            p, r = gen.point(rnd, a5, kind, rnd.choice((29, 29, 28, 28, 27)) if rnd.random() < 0.4 else None)
             try:
                 c = a5.lonlat_to_cell(p, r)
             except Exception as e:
